@@ -245,6 +245,9 @@ pub fn generate<M: Machine>(property: &str, verif_seed: u64, run: u64, size: Siz
     if M::FAMILY == Family::Sum && r.chance(0.3) {
         family = *r.pick(&[FAM_TINY, FAM_HUGE, FAM_VANISHING, FAM_NEAR_UNDERFLOW, FAM_NEAR_UNDERFLOW]);
     }
+    if !positive && flt != Flt::Int && r.chance(0.06) {
+        family = FAM_ALTERNATING;
+    }
     let exact_data = family == FAM_EXACT && !positive && flt != Flt::Int;
     let max_len = match size {
         SizeClass::Small => 64,
